@@ -71,6 +71,11 @@ class Cell(Module):
 
         branches = Branch() if branches is None else branches
         parents = [-1] if parents is None else parents
+        assert all(-1 <= p < i for i, p in enumerate(parents)), (
+            "`parents` must be sorted such that every branch comes after its parent, "
+            "i.e. `parents[i] < i` (and `-1` for a branch without parent). The branch "
+            "levels used by the voltage solvers are computed under this assumption."
+        )
 
         if isinstance(branches, Branch):
             branch_list = [branches for _ in range(len(parents))]
